@@ -388,6 +388,13 @@ def check_assembled(prop, mon, rs, early, who="incremental"):
                 found, val = _walk(A, np_)
                 if found and val is not None:
                     ok = True
+                elif not found and any(
+                        j != i and _is_prefix(tuple(pj["path"]), tuple(np_))
+                        for j, pj in mon.failed.items()):
+                    # the position to be nulled was never delivered at all: the object there
+                    # is shared with another fragment enclosing it that failed too (the shared
+                    # execution group that creates the object is withheld with both of them)
+                    ok = True
         if not ok:
             out.append(Violation(prop, "spurious_withholding",
                                  dict(fp, node="stream" if i in mon.stream_ids else "fragment"),
